@@ -618,7 +618,65 @@ def replay_prefix(info):
     return None, {}
 
 
-REPLAYS = {"paren-comment": replay_paren_comment, "prefix": replay_prefix, "semicolon": replay_semicolon, "brackets": replay_brackets, "comment": replay_comment, "collapse": replay_collapse}
+def o8_interpolated_brace(ses, rep):
+    """O8  Luau: `{{` does not lex inside an interpolated string. format_interpolated_string must separate the brace of the segment from an
+    expression that is PRINTED starting with `{`: on every path, if the expression format_expression returned is a table constructor, a
+    blank was put in front of it. The test has to look at the formatted expression: redundant parentheses `{({ .. })}` are gone by then."""
+    flagged = []
+    ex = ses.executor("lib", "full", inline=lambda n, f: False)
+    ex.max_block_visits = 2
+    ex.stateful_next = True
+    try:
+        fn = ses.need(ex, "format_interpolated_string")
+    except Inconclusive:
+        return flagged
+    T = ex.enums
+    TC = T.index("Expression", "TableConstructor")
+    args = [RefV(ex.fresh_lazy(t.lstrip("&").strip(), p)) if t.startswith("&") else ex.fresh_lazy(t, p) for p, t in fn.params]
+    outs = ex.run(fn, args)
+    n = 0
+    for pi, o in enumerate(outs):
+        if o.kind not in ("return", "loopbound"):       # (a path cut at the loop bound has formatted its segments all the same)
+            continue
+        fes = find_calls(o.trace, lambda x: x.split("::")[-1] == "format_expression")
+        for ci, (nm, a, res) in enumerate(fes):
+            if not isinstance(res, Lazy):
+                continue
+            d = ex.discr(o.state, res)
+            if not ses.reachable(list(o.pc) + [d == TC]):
+                continue
+            n += 1
+            padded = False
+            for t in o.trace:
+                if t[0] in ("havoc", "effect") and t[1].split("::")[-1] in ("update_leading_trivia", "update_trivia"):
+                    snap = t[4] if len(t) > 4 else t[2]
+                    x0 = deref_val(ex, o.state, snap[0]) if snap else None
+                    if x0 is res:
+                        padded = True
+            r, m = ses.obligation(f"interp/path{pi}/expr{ci}/table-constructor-is-padded", list(o.pc) + [d == TC], z3.BoolVal(not padded),
+                                  "a segment expression printed as a table constructor gets a blank in front")
+            if r == "sat":
+                flagged.append((f"interp/path{pi}/expr{ci}/table-constructor-is-padded", "an interpolated-string segment whose FORMATTED expression is a table constructor "
+                                "is not separated from the segment's brace (`{{` does not lex)", "interp", {}))
+    if n == 0 and outs:
+        raise Inconclusive("format_interpolated_string: no path formats a segment expression")
+    return flagged
+
+
+def replay_interp(info):
+    binp = common.native_build("full")
+    for body in ("{({ a = 1 })}", "{ ({}) }", "{(({ 1, 2 }))}", "x {({ a = 1 })} y {{ b = 2 }}", "{ {1} }", "{({ a = 1 }).a}"):
+        src = "local s = `" + body + "`\n"
+        for cfg in ([], ["--column-width", "20"]):
+            rc, out, err = common.run_stylua(binp, src, ["--syntax", "luau"] + cfg)
+            if rc != 0:
+                continue
+            if "{{" in out or not parses(binp, out, "luau"):
+                return f"interpolated string {src.strip()!r} is printed as {out.strip()!r}, which does not lex (`{{{{`)", {"source": src, "flags": ["--syntax", "luau"] + cfg, "output": out}
+    return None, {}
+
+
+REPLAYS = {"interp": replay_interp, "paren-comment": replay_paren_comment, "prefix": replay_prefix, "semicolon": replay_semicolon, "brackets": replay_brackets, "comment": replay_comment, "collapse": replay_collapse}
 
 
 def run(ses, rep):
@@ -636,6 +694,7 @@ def run(ses, rep):
     flagged += o5_collapse(ses, rep)
     flagged += o6_prefix_context(ses, rep)
     flagged += o7_parenthesis_line_comment(ses, rep)
+    flagged += o8_interpolated_brace(ses, rep)
     # O2 through the C05 machinery (reduced)
     o2 = run_o2(ses, rep)
     rep.samples.append({"flagged": [(f[0], f[1]) for f in flagged][:6]})
